@@ -98,9 +98,27 @@ fn outcome_class(r: &record::Record) -> String {
 
 fn run_job(cases: &BTreeMap<String, Vec<Case>>, job: &Job, monitors: &[String]) -> JobResult {
     let case = &cases[&job.family][job.case];
-    let r = execute(&case.scn, ExecInput::plain(job.schedule.clone()));
+    let mut input = ExecInput::plain(job.schedule.clone());
+    input.injects = case.injects.clone();
+    let r = execute(&case.scn, input);
     let finite = !job.schedule.iter().any(|(_, a)| matches!(a, Action::BlackholeFrom(_)));
-    let violations = families::run_monitors(monitors, case, &r, finite);
+    let mut violations = families::run_monitors(monitors, case, &r, finite);
+    if case.differential && job.schedule.iter().any(|(_, a)| matches!(a, Action::Forge(_))) {
+        // differential oracle: the same schedule without the forged datagrams
+        let mut base = ExecInput::plain(job.schedule.clone());
+        base.forge = false;
+        let r0 = execute(&case.scn, base);
+        let forged = r.dgrams.iter().filter(|d| d.action == "forged").count();
+        let (o0, o1) = (monitors::observation(&r0), monitors::observation(&r));
+        if o0 != o1 {
+            let pos = o0.bytes().zip(o1.bytes()).position(|(x, y)| x != y).unwrap_or(o0.len().min(o1.len()));
+            let lo = pos.saturating_sub(60);
+            violations.push(("forge.effect".into(), format!("{} forged datagrams changed what the endpoints did: without them ...{}..., with them ...{}...", forged, &o0[lo..(pos + 80).min(o0.len())], &o1[lo..(pos + 80).min(o1.len())])));
+        }
+        if forged == 0 {
+            violations.push(("machinery.forge_vacuous".into(), "no forged datagram was produced".into()));
+        }
+    }
     JobResult { n_dgrams: r.dgrams.iter().filter(|d| d.idx != u32::MAX).count(), hash: format!("{:032x}", trace_hash(case, &r)), outcome: outcome_class(&r), violations, crashed: false, end_t: r.end_t }
 }
 
